@@ -21,7 +21,10 @@ type fakeIndex struct {
 	maxBgOn atomic.Int32
 }
 
-func (f *fakeIndex) EnableLazyRebalancing(structures.LazyRebalancingConfig) error { f.calls.Add(1); return nil }
+func (f *fakeIndex) EnableLazyRebalancing(structures.LazyRebalancingConfig) error {
+	f.calls.Add(1)
+	return nil
+}
 func (f *fakeIndex) EnableIncrementalRebalancing(structures.IncrementalRebalancingConfig) error {
 	f.calls.Add(1)
 	return nil
@@ -39,7 +42,7 @@ func (f *fakeIndex) StartBackgroundRebalancing(context.Context) error {
 	return nil
 }
 func (f *fakeIndex) StopBackgroundRebalancing() error { f.calls.Add(1); f.bgOn.Add(-1); return nil }
-func (f *fakeIndex) GetFileSize() uint64               { return f.size }
+func (f *fakeIndex) GetFileSize() uint64              { return f.size }
 
 func (w *worker) runSmart() {
 	n := len(w.c.Threads)
